@@ -13,6 +13,7 @@ import PercevalModel.Lemmas.C03Prec
 import PercevalModel.Lemmas.C03Evolve
 import PercevalModel.Lemmas.C03Mixed
 import PercevalModel.Lemmas.C03Keys
+import PercevalModel.Lemmas.C03Cut
 import PercevalModel.Props.C02
 import Mathlib.LinearAlgebra.Matrix.ConjTranspose
 
@@ -1863,6 +1864,441 @@ example : wget (svdRun false (fun _ : Nat => 0) [.set 0 (1 / 5), .iadd 1 (3 / 10
 
 example : ∀ k : Nat, (fun _ : Nat => 0) ((fun _ : Nat => 0) k) = (fun _ : Nat => 0) k := fun _ => rfl
 
+/-! ## 14. the native cut of small components AFTER the final normalisation
+
+Section 11 bounds every amplitude BEFORE `post_select_statevector` normalises the vector.  Here the normalisation is
+included: the components `contribs U ψ` that `evolve` adds up are split into `kept` and `lost` in ANY way, the kept
+vector is normalised by ITS OWN norm (`keptNorm2 kept`, what the native `normalize()` divides by), and the reported
+probabilities `probsOfKept m kept` (`_to_bsd` of the normalised kept vector) are compared with the exact
+`probsOfEvolve U ψ`.  The bounds are written with the dropped components only: per annotated output `k` with kept
+amplitude `b_k` and dropped amplitude `l_k` (the sum of the lost components of `k`), `|l_k|² + 2|b_k||l_k|` on the
+probability scale (`cutKeyErr`, rational upper square roots), gathered per outcome in `cutErrD`. -/
+
+/-- `probsOfEvolve` is `probsOfKept` of all components (nothing lost) -/
+theorem probsOfEvolve_eq_probsOfKept {m : ℕ} (U : Matrix (Fin m) (Fin m) GQ) (terms : List Term) :
+    probsOfEvolve U terms = probsOfKept m (contribs U terms) ∧ outNorm2 U terms = keptNorm2 (contribs U terms) :=
+  ⟨rfl, rfl⟩
+
+/-- **the native cut, normalisation included** (whichever components are lost, no smallness assumed): with
+`E = mass cutErrD` (the sum of the per-output bounds), on the scale of the input's squared norm
+* the squared norm of the kept vector differs from the exact one by at most `E`,
+* every reported probability differs from the exact one by at most `(e(t) + P(t)·E) / (kept norm)`,
+* any set of outcomes (total variation × 2) by at most `2E / (kept norm)`. -/
+theorem evolve_cut_normalized {m : ℕ} (U : Matrix (Fin m) (Fin m) GQ) (terms : List Term)
+    (kept lost : Amps GQ) (hperm : (kept ++ lost).Perm (contribs U terms))
+    (hN : svNorm2 terms ≠ 0) (h0 : outNorm2 U terms ≠ 0) (h1 : keptNorm2 kept ≠ 0) :
+    |keptNorm2 kept / svNorm2 terms - outNorm2 U terms / svNorm2 terms| ≤
+      mass (cutErrD m (svNorm2 terms) kept lost) ∧
+    (∀ t, |get (probsOfKept m kept) t - get (probsOfEvolve U terms) t| ≤
+      (get (cutErrD m (svNorm2 terms) kept lost) t +
+        get (probsOfEvolve U terms) t * mass (cutErrD m (svNorm2 terms) kept lost)) /
+        (keptNorm2 kept / svNorm2 terms)) ∧
+    ∀ S : Finset Fock, ∑ t ∈ S, |get (probsOfKept m kept) t - get (probsOfEvolve U terms) t| ≤
+      2 * mass (cutErrD m (svNorm2 terms) kept lost) / (keptNorm2 kept / svNorm2 terms) := by
+  have hpos : 0 < svNorm2 terms := lt_of_le_of_ne (svNorm2_nonneg _) (Ne.symm hN)
+  exact kept_normalized_bound_of m (svNorm2 terms) hpos kept lost (contribs U terms) hperm h0 h1
+    (fun k => cutKeyErr (svNorm2 terms) (ampGet kept k) (ampGet lost k) k)
+    (fun k => cutKeyErr_nonneg _ hpos.le _ _ k) (fun K => cutKeyErr_ok _ hpos.le _ _ K)
+
+/-- the dropped amplitude of every output is at most `lossAt` when every lost component is below the cut
+(`evolve_cut_bound` read on the lost components) -/
+theorem lost_le_lossAt {m : ℕ} (U : Matrix (Fin m) (Fin m) GQ) (cut2 : ℚ) (terms : List Term)
+    (kept lost : Amps GQ) (hperm : (kept ++ lost).Perm (contribs U terms))
+    (hsmall : ∀ x ∈ lost, smallC cut2 (svNorm2 terms) x = true) (k : List Fock) :
+    GQ.normSq (ampGet lost k) * keyScale (svNorm2 terms) k ≤ (lossAt U cut2 terms k) ^ 2 := by
+  have h := evolve_cut_bound U cut2 terms kept lost hperm hsmall k
+  have hd : ampGet (evolveRaw U terms) k - ampGet kept k = ampGet lost k := by
+    unfold evolveRaw
+    rw [ampGet_gatherAmps, ← ampGet_perm hperm k, ampGet_append]
+    ring
+  rwa [hd] at h
+
+/-- **the native cut at `cut2`, normalisation included**: when every lost component is below the cut, the same three
+bounds hold with the per-output error `lossAt² + 2·|b_k|·lossAt` (`cutErrDL`), `lossAt` = the sum of the moduli of ALL
+components of that output below the cut — computable from the exact evolution alone, whichever components the native
+container discards -/
+theorem evolve_cut_normalized_lossAt {m : ℕ} (U : Matrix (Fin m) (Fin m) GQ) (cut2 : ℚ) (terms : List Term)
+    (kept lost : Amps GQ) (hperm : (kept ++ lost).Perm (contribs U terms))
+    (hsmall : ∀ x ∈ lost, smallC cut2 (svNorm2 terms) x = true)
+    (hN : svNorm2 terms ≠ 0) (h0 : outNorm2 U terms ≠ 0) (h1 : keptNorm2 kept ≠ 0) :
+    |keptNorm2 kept / svNorm2 terms - outNorm2 U terms / svNorm2 terms| ≤
+      mass (cutErrDL m (svNorm2 terms) kept lost (lossAt U cut2 terms)) ∧
+    (∀ t, |get (probsOfKept m kept) t - get (probsOfEvolve U terms) t| ≤
+      (get (cutErrDL m (svNorm2 terms) kept lost (lossAt U cut2 terms)) t +
+        get (probsOfEvolve U terms) t * mass (cutErrDL m (svNorm2 terms) kept lost (lossAt U cut2 terms))) /
+        (keptNorm2 kept / svNorm2 terms)) ∧
+    ∀ S : Finset Fock, ∑ t ∈ S, |get (probsOfKept m kept) t - get (probsOfEvolve U terms) t| ≤
+      2 * mass (cutErrDL m (svNorm2 terms) kept lost (lossAt U cut2 terms)) / (keptNorm2 kept / svNorm2 terms) := by
+  have hpos : 0 < svNorm2 terms := lt_of_le_of_ne (svNorm2_nonneg _) (Ne.symm hN)
+  have hL0 : ∀ k, 0 ≤ lossAt U cut2 terms k := fun k => lossOf_nonneg _ _ _ k
+  refine kept_normalized_bound_of m (svNorm2 terms) hpos kept lost (contribs U terms) hperm h0 h1
+    (fun k => lossAt U cut2 terms k ^ 2 +
+      2 * sqrtUp (GQ.normSq (ampGet kept k) * keyScale (svNorm2 terms) k) * lossAt U cut2 terms k)
+    (fun k => ?_) (fun K => ?_)
+  · have := mul_nonneg (mul_nonneg (by norm_num : (0 : ℚ) ≤ 2)
+      (sqrtUp_nonneg (GQ.normSq (ampGet kept k) * keyScale (svNorm2 terms) k))) (hL0 k)
+    have := sq_nonneg (lossAt U cut2 terms k)
+    linarith
+  · exact cutKeyErrL_ok _ hpos.le _ _ K _ (hL0 K) (lost_le_lossAt U cut2 terms kept lost hperm hsmall K)
+
+/-- **unitary circuit**: the exact vector has the input's norm, so with `E = mass cutErrD < 1` and nothing else
+assumed about the kept vector: its squared norm (relative to the input's) is at least `1 − E`, every reported
+probability is within `(e(t) + P(t)·E) / (1 − E)` of the specification `probsSV`, any set of outcomes within
+`2E / (1 − E)` -/
+theorem evolve_cut_normalized_unitary {m : ℕ} (U : Matrix (Fin m) (Fin m) GQ) (hU : IsUnitary U)
+    (terms : List Term) (hlen : ∀ t ∈ terms, ∀ s ∈ t.groups, s.length = m)
+    (hnd : (terms.map (·.groups)).Nodup) (hN : svNorm2 terms ≠ 0)
+    (kept lost : Amps GQ) (hperm : (kept ++ lost).Perm (contribs U terms))
+    (hE : mass (cutErrD m (svNorm2 terms) kept lost) < 1) :
+    1 - mass (cutErrD m (svNorm2 terms) kept lost) ≤ keptNorm2 kept / svNorm2 terms ∧
+    (∀ t, |get (probsOfKept m kept) t - get (probsSV U terms) t| ≤
+      (get (cutErrD m (svNorm2 terms) kept lost) t +
+        get (probsSV U terms) t * mass (cutErrD m (svNorm2 terms) kept lost)) /
+        (1 - mass (cutErrD m (svNorm2 terms) kept lost))) ∧
+    ∀ S : Finset Fock, ∑ t ∈ S, |get (probsOfKept m kept) t - get (probsSV U terms) t| ≤
+      2 * mass (cutErrD m (svNorm2 terms) kept lost) / (1 - mass (cutErrD m (svNorm2 terms) kept lost)) := by
+  set E := mass (cutErrD m (svNorm2 terms) kept lost) with hEdef
+  have hpos : 0 < svNorm2 terms := lt_of_le_of_ne (svNorm2_nonneg _) (Ne.symm hN)
+  have hout : outNorm2 U terms = svNorm2 terms := evolve_preserves_norm U hU terms hlen hnd hN
+  have hspec : probsOfEvolve U terms = probsSV U terms := probsOfEvolve_eq_probsSV U hU terms hlen hnd hN
+  have hnn : NonNeg (cutErrD m (svNorm2 terms) kept lost) :=
+    nonneg_cutErrDOf m kept lost _ fun k => cutKeyErr_nonneg _ hpos.le _ _ k
+  have hE0 : 0 ≤ E := by
+    have := sum_get_le_mass _ hnn ∅
+    simpa using this
+  -- the norms differ by at most E, without assuming the kept vector non-zero
+  have hmass : |keptNorm2 kept / svNorm2 terms - outNorm2 U terms / svNorm2 terms| ≤ E := by
+    have h := mass_perturb (toBsdOf m (svNorm2 terms) (contribs U terms)) (toBsdOf m (svNorm2 terms) kept)
+      (fun t => get (cutErrD m (svNorm2 terms) kept lost) t) E
+      (fun t => toBsdOf_cut_bound m (svNorm2 terms) kept lost (contribs U terms) hperm _
+        (fun K => cutKeyErr_ok _ hpos.le _ _ K) t)
+      (fun S => sum_get_le_mass _ hnn S)
+    rw [mass_toBsdOf, mass_toBsdOf] at h
+    exact h
+  rw [hout, div_self hN] at hmass
+  have hlow : 1 - E ≤ keptNorm2 kept / svNorm2 terms := by
+    have := (abs_le.1 hmass).1; linarith
+  have hkpos : 0 < keptNorm2 kept / svNorm2 terms := by linarith
+  have h1 : keptNorm2 kept ≠ 0 := by
+    intro h; rw [h, zero_div] at hkpos; exact lt_irrefl _ hkpos
+  obtain ⟨_, h2, h3⟩ := evolve_cut_normalized U terms kept lost hperm hN (by rw [hout]; exact hN) h1
+  rw [hspec] at h2 h3
+  refine ⟨hlow, fun t => (h2 t).trans ?_, fun S => (h3 S).trans ?_⟩
+  · have hx : 0 ≤ get (cutErrD m (svNorm2 terms) kept lost) t + get (probsSV U terms) t * E := by
+      have := (abs_nonneg _).trans (h2 t)
+      by_contra hneg
+      have := div_neg_of_neg_of_pos (not_le.1 hneg) hkpos
+      linarith
+    exact div_le_div_of_nonneg_left hx (by linarith) hlow
+  · exact div_le_div_of_nonneg_left (mul_nonneg (by norm_num) hE0) (by linarith) hlow
+
+/-! non-vacuity of section 14.  `exSV` behind `exU` with nothing lost satisfies every hypothesis (the norms are
+`svNorm2 exSV = 3 ≠ 0` by `evolve_preserves_norm`); a split that really loses a component is checked on explicit
+component lists (the kernel does not evaluate permanents): kept `|1,0⟩` with amplitude 1, lost `|0,1⟩` with
+amplitude 1/1000 -/
+example : (contribs PM.C02.exU exSV ++ []).Perm (contribs PM.C02.exU exSV) ∧ svNorm2 exSV ≠ 0 ∧
+    outNorm2 PM.C02.exU exSV ≠ 0 ∧ keptNorm2 (contribs PM.C02.exU exSV) ≠ 0 := by
+  have h := evolve_preserves_norm _ exU_isUnitary _ exSV_ok.1 exSV_ok.2.1 exSV_ok.2.2
+  refine ⟨by simp, exSV_ok.2.2, by rw [h]; exact exSV_ok.2.2, ?_⟩
+  rw [← (probsOfEvolve_eq_probsOfKept PM.C02.exU exSV).2, h]; exact exSV_ok.2.2
+
+example : keptNorm2 [([[1, 0]], (1 : GQ)), ([[0, 1]], ⟨1 / 1000, 0⟩)] ≠ 0 ∧ keptNorm2 [([[1, 0]], (1 : GQ))] ≠ 0 ∧
+    0 < mass (cutErrD 2 1 [([[1, 0]], (1 : GQ))] [([[0, 1]], ⟨1 / 1000, 0⟩)]) ∧
+    mass (cutErrD 2 1 [([[1, 0]], (1 : GQ))] [([[0, 1]], ⟨1 / 1000, 0⟩)]) < 1 := by
+  decide +kernel
+
+/-! ## 15. basis states of one superposition that coincide after the split into tag groups
+
+Two natively distinct basis states can be mapped to the SAME labelled groups by the mixed tagged/untagged rule
+(`|{_:0},1⟩` and `|{_:0},{_:0}⟩`, section 12): in the model, two terms `a·g`, `b·g` with the same `groups`.  Their
+evolved vectors coincide, so the evolved superposition is that of the single term `(a+b)·g`, while the input's squared
+norm still counts `|a|² + |b|²`.  This section states what the specification and the code-shaped model give then, and
+that the hypothesis 'pairwise distinct basis states' of the `*_unitary` theorems is necessary as well as sufficient. -/
+
+/-- merging two terms with the same groups changes no amplitude of the evolved vector -/
+theorem contribs_merge {m : ℕ} (U : Matrix (Fin m) (Fin m) GQ) (a b : GQ) (g : List Fock) (rest : List Term) :
+    AEqv (contribs U (⟨a, g⟩ :: ⟨b, g⟩ :: rest)) (contribs U (⟨a + b, g⟩ :: rest)) := by
+  intro K
+  unfold contribs
+  rw [evolve_linear, evolve_linear]
+  simp only [List.map_cons, List.sum_cons, toTermR]
+  ring
+
+theorem probsSV_eq_toBsdOf {m : ℕ} (U : Matrix (Fin m) (Fin m) GQ) (terms : List Term) :
+    probsSV U terms = toBsdOf m (svNorm2 terms) (contribs U terms) := by
+  unfold probsSV toBsdOf contribs
+  rw [evolve_eq_spec]
+
+/-- **two superpositions with the same evolved vector**: the specification's distributions differ exactly by the
+ratio of the INPUT norms (the amplitudes are equal, each is divided by its own input norm) -/
+theorem probsSV_same_vector {m : ℕ} (U : Matrix (Fin m) (Fin m) GQ) (ψ ψ' : List Term)
+    (h : AEqv (contribs U ψ) (contribs U ψ')) (hN : svNorm2 ψ ≠ 0) (hN' : svNorm2 ψ' ≠ 0) :
+    (∀ t, get (probsSV U ψ) t = svNorm2 ψ' / svNorm2 ψ * get (probsSV U ψ') t) ∧
+    mass (probsSV U ψ) = svNorm2 ψ' / svNorm2 ψ * mass (probsSV U ψ') := by
+  have hpt : ∀ t, get (probsSV U ψ) t = svNorm2 ψ' / svNorm2 ψ * get (probsSV U ψ') t := by
+    intro t
+    rw [probsSV_eq_toBsdOf, probsSV_eq_toBsdOf]
+    have h1 : get (toBsdOf m (svNorm2 ψ) (contribs U ψ)) t = get (toBsdOf m (svNorm2 ψ) (contribs U ψ')) t :=
+      get_toBsd_congr m _ _ h (svNorm2 ψ) t
+    rw [h1, toBsdOf_rescale m (svNorm2 ψ) (svNorm2 ψ') hN hN']
+  refine ⟨hpt, ?_⟩
+  have : Eqv (probsSV U ψ) (scale (svNorm2 ψ' / svNorm2 ψ) (probsSV U ψ')) := fun t => by
+    rw [get_scale]; exact hpt t
+  rw [mass_congr this, mass_scale]
+
+/-- **coinciding basis states, unitary circuit**: for `ψ = a·g + b·g + rest` (the other basis states pairwise
+distinct and distinct from `g`, `ψ' = (a+b)·g + rest` non-zero)
+* the specification gives every outcome `‖ψ'‖²/‖ψ‖²` times the probability under `ψ'` and a total probability
+  `‖ψ'‖²/‖ψ‖²` (`≠ 1` in general: `|a+b|²` in place of `|a|² + |b|²`),
+* `probs` of the vector `evolve` returns (normalised by its OWN norm) is the distribution of `ψ'`. -/
+theorem probs_coinciding_terms {m : ℕ} (U : Matrix (Fin m) (Fin m) GQ) (hU : IsUnitary U) (a b : GQ)
+    (g : List Fock) (rest : List Term)
+    (hlen : ∀ t ∈ (⟨a + b, g⟩ :: rest : List Term), ∀ s ∈ t.groups, s.length = m)
+    (hnd : ((⟨a + b, g⟩ :: rest : List Term).map (·.groups)).Nodup)
+    (hN : svNorm2 (⟨a, g⟩ :: ⟨b, g⟩ :: rest) ≠ 0) (hN' : svNorm2 (⟨a + b, g⟩ :: rest) ≠ 0) :
+    (∀ t, get (probsSV U (⟨a, g⟩ :: ⟨b, g⟩ :: rest)) t =
+      svNorm2 (⟨a + b, g⟩ :: rest) / svNorm2 (⟨a, g⟩ :: ⟨b, g⟩ :: rest) *
+        get (probsSV U (⟨a + b, g⟩ :: rest)) t) ∧
+    mass (probsSV U (⟨a, g⟩ :: ⟨b, g⟩ :: rest)) =
+      svNorm2 (⟨a + b, g⟩ :: rest) / svNorm2 (⟨a, g⟩ :: ⟨b, g⟩ :: rest) ∧
+    outNorm2 U (⟨a, g⟩ :: ⟨b, g⟩ :: rest) = svNorm2 (⟨a + b, g⟩ :: rest) ∧
+    ∀ t, get (probsOfEvolve U (⟨a, g⟩ :: ⟨b, g⟩ :: rest)) t = get (probsSV U (⟨a + b, g⟩ :: rest)) t := by
+  have hA := contribs_merge U a b g rest
+  obtain ⟨h1, h2⟩ := probsSV_same_vector U _ _ hA hN hN'
+  have hone := probsSV_mass_one U hU _ hlen hnd hN'
+  rw [hone, mul_one] at h2
+  have hout : outNorm2 U (⟨a, g⟩ :: ⟨b, g⟩ :: rest) = svNorm2 (⟨a + b, g⟩ :: rest) := by
+    rw [← evolve_preserves_norm U hU _ hlen hnd hN']
+    have e : Eqv (toBsdOf m 1 (contribs U (⟨a, g⟩ :: ⟨b, g⟩ :: rest)))
+        (toBsdOf m 1 (contribs U (⟨a + b, g⟩ :: rest))) := fun t => get_toBsd_congr m _ _ hA 1 t
+    have := mass_congr e
+    rw [mass_toBsdOf, mass_toBsdOf, div_one, div_one] at this
+    exact this
+  refine ⟨h1, h2, hout, fun t => ?_⟩
+  rw [probsSV_eq_toBsdOf]
+  show get (toBsdOf m (outNorm2 U (⟨a, g⟩ :: ⟨b, g⟩ :: rest)) (contribs U (⟨a, g⟩ :: ⟨b, g⟩ :: rest))) t = _
+  rw [hout]
+  exact get_toBsd_congr m _ _ hA _ t
+
+/-- the squared norms of the two-term input and of its merged form -/
+theorem svNorm2_pair (a b : GQ) (g : List Fock) :
+    svNorm2 [⟨a, g⟩, ⟨b, g⟩] = (GQ.normSq a + GQ.normSq b) * ((g.map prodFact).prod : ℚ) ∧
+    svNorm2 [⟨a + b, g⟩] = GQ.normSq (a + b) * ((g.map prodFact).prod : ℚ) := by
+  unfold svNorm2
+  constructor <;> simp <;> ring
+
+theorem prodFact_prod_pos (g : List Fock) : (0 : ℚ) < ((g.map prodFact).prod : ℚ) := by
+  have : (g.map prodFact).prod ≠ 0 := by
+    apply List.prod_ne_zero
+    intro h0
+    obtain ⟨s, _, hs⟩ := List.mem_map.1 h0
+    exact PM.FockComp.prodFact_ne_zero s hs
+  exact_mod_cast Nat.pos_of_ne_zero this
+
+/-- **two coinciding basis states alone, `a + b ≠ 0`**: the specification's total probability is
+`|a+b|² / (|a|² + |b|²)` -/
+theorem probs_two_coinciding_mass {m : ℕ} (U : Matrix (Fin m) (Fin m) GQ) (hU : IsUnitary U) (a b : GQ)
+    (g : List Fock) (hlen : ∀ s ∈ g, s.length = m) (hab : a + b ≠ 0) :
+    mass (probsSV U [⟨a, g⟩, ⟨b, g⟩]) = GQ.normSq (a + b) / (GQ.normSq a + GQ.normSq b) := by
+  have hp := prodFact_prod_pos g
+  have hN' : svNorm2 [⟨a + b, g⟩] ≠ 0 := svNorm2_ne_zero _ ⟨_, List.mem_cons_self, hab⟩
+  have hN : svNorm2 [⟨a, g⟩, ⟨b, g⟩] ≠ 0 := by
+    by_cases ha : a = 0
+    · refine svNorm2_ne_zero _ ⟨⟨b, g⟩, by simp, ?_⟩
+      intro hb; apply hab; rw [ha]; simpa using hb
+    · exact svNorm2_ne_zero _ ⟨⟨a, g⟩, by simp, ha⟩
+  have h := (probs_coinciding_terms U hU a b g [] (by
+      intro t ht s hs
+      simp only [List.mem_cons, List.not_mem_nil, or_false] at ht
+      subst ht
+      exact hlen s hs) (by simp) hN hN').2.1
+  rw [h, (svNorm2_pair a b g).1, (svNorm2_pair a b g).2]
+  rw [mul_div_mul_right _ _ (ne_of_gt hp)]
+
+/-- … hence total probability 1 exactly when the two coefficients are orthogonal, `Re(a·b̄) = 0` -/
+theorem probs_two_coinciding_mass_one_iff {m : ℕ} (U : Matrix (Fin m) (Fin m) GQ) (hU : IsUnitary U) (a b : GQ)
+    (g : List Fock) (hlen : ∀ s ∈ g, s.length = m) (hab : a + b ≠ 0) :
+    mass (probsSV U [⟨a, g⟩, ⟨b, g⟩]) = 1 ↔ a.re * b.re + a.im * b.im = 0 := by
+  rw [probs_two_coinciding_mass U hU a b g hlen hab]
+  have hs : 0 < GQ.normSq a + GQ.normSq b := by
+    have ha := normSq_nonneg a
+    have hb := normSq_nonneg b
+    rcases lt_or_eq_of_le (add_nonneg ha hb) with h | h
+    · exact h
+    · exfalso
+      have ha0 : GQ.normSq a = 0 := by linarith
+      have hb0 : GQ.normSq b = 0 := by linarith
+      apply hab
+      rw [normSq_eq_zero ha0, normSq_eq_zero hb0, add_zero]
+  rw [div_eq_one_iff_eq (ne_of_gt hs)]
+  simp only [GQ.normSq, GQ.add_re, GQ.add_im]
+  constructor <;> intro h <;> nlinarith [h]
+
+/-- **'pairwise distinct basis states' is necessary** for `probsSV_mass_one` (and with it for every `*_unitary`
+theorem on superposed members): without it the statement is false — `|1,0⟩ + |1,0⟩` written as two terms behind the
+unitary `exU` has total probability 2 -/
+theorem probsSV_mass_one_needs_distinct :
+    ¬ ∀ (U : Matrix (Fin 2) (Fin 2) GQ), IsUnitary U → ∀ terms : List Term,
+      (∀ t ∈ terms, ∀ s ∈ t.groups, s.length = 2) → svNorm2 terms ≠ 0 → mass (probsSV U terms) = 1 := by
+  intro h
+  have h1 := h PM.C02.exU exU_isUnitary [⟨1, [[1, 0]]⟩, ⟨1, [[1, 0]]⟩]
+    (by intro t ht s hs; simp only [List.mem_cons, List.not_mem_nil, or_false] at ht
+        rcases ht with rfl | rfl <;> simp_all)
+    (by decide +kernel)
+  have h2 := probs_two_coinciding_mass PM.C02.exU exU_isUnitary 1 1 [[1, 0]] (by simp) (by decide +kernel)
+  rw [h1] at h2
+  revert h2
+  decide +kernel
+
+/-- **two coinciding basis states that cancel, `b = −a`** (any matrix): the evolved vector is 0 — every outcome gets
+probability 0 from the specification (`0/‖ψ‖²`) and from `probs` of the evolved vector (`0/0 = 0` in the model; the
+real `evolve` has no vector to normalise) -/
+theorem probs_two_coinciding_destructive {m : ℕ} (U : Matrix (Fin m) (Fin m) GQ) (a : GQ) (g : List Fock)
+    (t : Fock) :
+    get (probsSV U [⟨a, g⟩, ⟨-a, g⟩]) t = 0 ∧ get (probsOfEvolve U [⟨a, g⟩, ⟨-a, g⟩]) t = 0 := by
+  classical
+  have hz : ∀ K, ampGet (contribs U [⟨a, g⟩, ⟨-a, g⟩]) K = 0 := by
+    intro K
+    unfold contribs
+    rw [evolve_linear]
+    simp only [List.map_cons, List.map_nil, List.sum_cons, List.sum_nil, toTermR]
+    ring
+  have hS : ∀ K ∈ (contribs U [⟨a, g⟩, ⟨-a, g⟩]).map (·.1),
+      K ∈ ((contribs U [⟨a, g⟩, ⟨-a, g⟩]).map (·.1)).toFinset := fun K hK => List.mem_toFinset.2 hK
+  have hall : ∀ n2 : ℚ, get (toBsdOf m n2 (contribs U [⟨a, g⟩, ⟨-a, g⟩])) t = 0 := by
+    intro n2
+    unfold toBsdOf
+    rw [get_toBsd m _ _ t _ hS]
+    simp only [hz, outW_zero, Finset.sum_const_zero, zero_div]
+  exact ⟨by rw [probsSV_eq_toBsdOf]; exact hall _, hall _⟩
+
+/-! non-vacuity of section 15: a constructive and a partly destructive pair behind `exU` -/
+example : mass (probsSV PM.C02.exU [⟨1, [[1, 0]]⟩, ⟨1, [[1, 0]]⟩]) = 2 := by
+  rw [probs_two_coinciding_mass PM.C02.exU exU_isUnitary 1 1 [[1, 0]] (by simp) (by decide +kernel)]
+  decide +kernel
+
+example : mass (probsSV PM.C02.exU [⟨1, [[1, 0]]⟩, ⟨⟨0, 1⟩, [[1, 0]]⟩]) = 1 :=
+  (probs_two_coinciding_mass_one_iff PM.C02.exU exU_isUnitary 1 ⟨0, 1⟩ [[1, 0]] (by simp)
+    (by decide +kernel)).2 (by decide +kernel)
+
+/-! ## 16. `d[k] += w` preserves the mixture: the hypothesis 'equal keys have equal distributions' discharged for
+more member distributions
+
+`dict_accumulate_preserves_mixture` is stated for an arbitrary `f`.  Two members are equal keys (`sameKey`) exactly when
+both are ONE basis state on the same groups with non-zero coefficients that differ by a positive factor
+(`sameKey_single`); so the hypothesis reduces to a statement about one-term vectors (`…_single`), which holds with
+no further assumption for the evolve route `probsOfEvolve U` (any matrix, unitary or not) and for the fast path at
+threshold 0. -/
+
+/-- what an equal key is: one basis state each, same groups, non-zero coefficients, positive ratio -/
+theorem sameKey_single (a b : Member) (h : sameKey a b = true) :
+    ∃ s u : Term, a.terms = [s] ∧ b.terms = [u] ∧ s.groups = u.groups ∧ s.coef ≠ 0 ∧ u.coef ≠ 0 ∧
+      (s.coef * star u.coef).im = 0 ∧ 0 < (s.coef * star u.coef).re := by
+  unfold sameKey at h
+  split at h
+  · rename_i s u hs hu
+    simp only [Bool.and_eq_true, beq_iff_eq, decide_eq_true_eq] at h
+    obtain ⟨⟨hg, him⟩, hpos⟩ := h
+    have hs0 : s.coef ≠ 0 := by
+      intro e; rw [e] at hpos; simp at hpos
+    have hu0 : u.coef ≠ 0 := by
+      intro e; rw [e] at hpos; simp at hpos
+    exact ⟨s, u, hs, hu, hg, hs0, hu0, him, hpos⟩
+  · cases h
+
+/-- **`d[k] += w` preserves the mixture, hypothesis on one-term vectors only**: it is enough that `f` gives one
+basis state the same distribution for any two non-zero coefficients of positive ratio -/
+theorem dict_accumulate_preserves_mixture_single (f : List Term → D)
+    (hf1 : ∀ (c c' : GQ) (g : List Fock), c ≠ 0 → c' ≠ 0 → (c * star c').im = 0 → 0 < (c * star c').re →
+      ∀ t, get (f [⟨c, g⟩]) t = get (f [⟨c', g⟩]) t)
+    (d : List Member) (x : Member) (t : Fock) :
+    mixAt f (partAdd d x).1 t = mixAt f d t + x.w * get (f x.terms) t := by
+  apply dict_accumulate_preserves_mixture f
+  intro a b h t
+  obtain ⟨s, u, hs, hu, hg, hs0, hu0, him, hpos⟩ := sameKey_single a b h
+  rw [hs, hu]
+  have := hf1 s.coef u.coef s.groups hs0 hu0 him hpos t
+  rw [show (⟨u.coef, s.groups⟩ : Term) = u from by rw [hg]] at this
+  exact this
+
+theorem dict_accumulate_all_preserves_mixture_single (f : List Term → D)
+    (hf1 : ∀ (c c' : GQ) (g : List Fock), c ≠ 0 → c' ≠ 0 → (c * star c').im = 0 → 0 < (c * star c').re →
+      ∀ t, get (f [⟨c, g⟩]) t = get (f [⟨c', g⟩]) t)
+    (d xs : List Member) (t : Fock) :
+    mixAt f (partAddAll d xs) t = mixAt f d t + mixAt f xs t := by
+  apply dict_accumulate_all_preserves_mixture f
+  intro a b h t
+  obtain ⟨s, u, hs, hu, hg, hs0, hu0, him, hpos⟩ := sameKey_single a b h
+  rw [hs, hu]
+  have := hf1 s.coef u.coef s.groups hs0 hu0 him hpos t
+  rw [show (⟨u.coef, s.groups⟩ : Term) = u from by rw [hg]] at this
+  exact this
+
+/-- `probs` of the vector `evolve` returns for ONE basis state with a non-zero coefficient, any matrix: the
+normalised distribution of the groups' recombination — the coefficient does not occur -/
+theorem probsOfEvolve_single {m : ℕ} (U : Matrix (Fin m) (Fin m) GQ) (c : GQ) (g : List Fock) (hc : c ≠ 0)
+    (t : Fock) :
+    get (probsOfEvolve U [⟨c, g⟩]) t =
+      if mass (tupD U g) = 0 then 0 else get (normalize (tupD U g)) t := by
+  classical
+  have hsv : probsSV U [⟨c, g⟩] = tupD U g := probsSV_single' U ⟨c, g⟩ hc
+  have hN : svNorm2 [⟨c, g⟩] ≠ 0 := svNorm2_ne_zero _ ⟨_, List.mem_cons_self, hc⟩
+  have hto : toBsdOf m (svNorm2 [⟨c, g⟩]) (contribs U [⟨c, g⟩]) = tupD U g := by
+    rw [← probsSV_eq_toBsdOf, hsv]
+  have hk : keptNorm2 (contribs U [⟨c, g⟩]) / svNorm2 [⟨c, g⟩] = mass (tupD U g) := by
+    rw [← mass_toBsdOf m, hto]
+  show get (probsOfKept m (contribs U [⟨c, g⟩])) t = _
+  by_cases h0 : mass (tupD U g) = 0
+  · rw [if_pos h0]
+    have hz : keptNorm2 (contribs U [⟨c, g⟩]) = 0 := by
+      rw [h0] at hk
+      rcases div_eq_zero_iff.1 hk with h | h
+      · exact h
+      · exact absurd h hN
+    have hS : ∀ K ∈ (contribs U [⟨c, g⟩]).map (·.1), K ∈ ((contribs U [⟨c, g⟩]).map (·.1)).toFinset :=
+      fun K hK => List.mem_toFinset.2 hK
+    unfold probsOfKept
+    rw [get_toBsd m _ _ t _ hS, hz, div_zero]
+  · rw [if_neg h0, ← hto]
+    apply get_probsOfKept m _ hN
+    intro hz
+    rw [hz, zero_div] at hk
+    exact h0 hk.symm
+
+/-- **the evolve route**: for `f = probs ∘ evolve` (`probsOfEvolve U`, ANY matrix) `d[k] += w` adds exactly
+`w · f(part)(t)` — no hypothesis left -/
+theorem dict_accumulate_preserves_mixture_evolve {m : ℕ} (U : Matrix (Fin m) (Fin m) GQ)
+    (d : List Member) (x : Member) (t : Fock) :
+    mixAt (probsOfEvolve U) (partAdd d x).1 t = mixAt (probsOfEvolve U) d t + x.w * get (probsOfEvolve U x.terms) t :=
+  dict_accumulate_preserves_mixture_single (probsOfEvolve U)
+    (fun c c' g hc hc' _ _ t => by rw [probsOfEvolve_single U c g hc, probsOfEvolve_single U c' g hc']) d x t
+
+theorem dict_accumulate_all_preserves_mixture_evolve {m : ℕ} (U : Matrix (Fin m) (Fin m) GQ)
+    (d xs : List Member) (t : Fock) :
+    mixAt (probsOfEvolve U) (partAddAll d xs) t = mixAt (probsOfEvolve U) d t + mixAt (probsOfEvolve U) xs t :=
+  dict_accumulate_all_preserves_mixture_single (probsOfEvolve U)
+    (fun c c' g hc hc' _ _ t => by rw [probsOfEvolve_single U c g hc, probsOfEvolve_single U c' g hc']) d xs t
+
+/-- at threshold 0 the fast path of a member does not look at its weight -/
+theorem memberFast_zero_weight {m : ℕ} (U : Matrix (Fin m) (Fin m) GQ) (mb : Member) :
+    memberFast U 0 mb = memberFast U 0 ⟨0, mb.terms⟩ := by
+  unfold memberFast
+  simp only [zero_div]
+
+/-- **the fast path at threshold 0** (`_probs_svd_fast`: the tensor product of the groups' distributions, the
+coefficient is never read): no hypothesis left -/
+theorem dict_accumulate_preserves_mixture_fast {m : ℕ} (U : Matrix (Fin m) (Fin m) GQ)
+    (d : List Member) (x : Member) (t : Fock) :
+    mixAt (fun ts => memberFast U 0 ⟨0, ts⟩) (partAdd d x).1 t =
+      mixAt (fun ts => memberFast U 0 ⟨0, ts⟩) d t + x.w * get (memberFast U 0 x) t := by
+  rw [memberFast_zero_weight U x]
+  exact dict_accumulate_preserves_mixture_single (fun ts => memberFast U 0 ⟨0, ts⟩)
+    (fun c c' g _ _ _ _ t => rfl) d x t
+
+/-! non-vacuity of section 16: an equal key exists (`2·|1,0⟩` onto `|1,0⟩`), the weights add up -/
+example : sameKey ⟨1 / 2, [⟨1, [[1, 0]]⟩]⟩ ⟨1 / 4, [⟨⟨2, 0⟩, [[1, 0]]⟩]⟩ = true ∧
+    (partAdd [⟨1 / 2, [⟨1, [[1, 0]]⟩]⟩] ⟨1 / 4, [⟨⟨2, 0⟩, [[1, 0]]⟩]⟩).2 = 3 / 4 := by decide +kernel
+
 /-!
 Not proved here (validated by the correspondence on every run):
 * that the IMPLEMENTATION leaves out at a non-zero precision exactly what the model leaves out: sections 10 bounds
@@ -1871,9 +2307,23 @@ Not proved here (validated by the correspondence on every run):
 * the hypotheses `mass (rawSvd …) ≠ 0` / `errTot < 1` involve permanents, which the kernel does not evaluate: their
   non-vacuity is witnessed by the driver on every run (required branch `prec-theorem-applies`);
 * the native cut of small components: `evolve_cut_bound` bounds every amplitude BEFORE the final normalisation, for
-  every admissible choice of lost components; the rescaling of all amplitudes by the norm the cut took away is
-  evaluated numerically by the harness (`loss_profile`), not proved; which components the native container discards
-  is not modelled;
+  every admissible choice of lost components; AFTER the normalisation section 14 bounds the norm the cut took away and
+  every PROBABILITY of the normalised kept vector (`evolve_cut_normalized`, `…_lossAt`, `…_unitary`).  Still not
+  proved: the same bound for the normalised AMPLITUDES themselves (phase included) — `A_k/√N − A'_k/√N'` involves the
+  square roots of the two norms, which are not rational; the harness keeps its numerical `loss_profile` slack for
+  the amplitude comparison.  Which components the native container discards is not modelled (the theorems quantify
+  over all splits); the harness does not yet compare with `cutErrD` (the driver has no op for it);
+* basis states of one superposition that coincide after the split into tag groups: section 15 says what the model
+  gives (`probs_coinciding_terms`: total probability `‖ψ'‖²/‖ψ‖²`, `probs∘evolve` = the distribution of the merged
+  vector) and that 'pairwise distinct basis states' is necessary (`probsSV_mass_one_needs_distinct`); the iff
+  `probs_two_coinciding_mass_one_iff` is proved for TWO coinciding terms alone, the general criterion (any number of
+  coinciding terms beside others: total probability 1 iff `‖merged ψ‖² = ‖ψ‖²`) follows from
+  `probs_coinciding_terms` by induction on the merges and is not written out; such inputs are still not generated by
+  the harness (the native `==` of such states is not symmetric);
+* `dict_accumulate_preserves_mixture`: the hypothesis is discharged for `probsSV U`, `probsOfEvolve U` and the fast
+  path at threshold 0 (section 16); for the paths at a threshold > 0 the member distribution depends on the member's
+  WEIGHT (`θ/(10·w)`), so `d[k] += w` changes the distribution of the key itself — there the statement is false as
+  it stands and sections 10's `preprocess_split` is the applicable theorem;
 * the identity of two multi-component state vectors as dict keys (native float comparison): not modelled
   (distinct keys in `sameKey`); section 13 models the dict discipline (`norm` abstract): which un-normalised vectors the
   native normalisation maps to bit-identical keys is observed (scalings by powers of two, fresh copies), not modelled;
